@@ -4,7 +4,8 @@
 (* accepted (ConsCfgTrace.cfg: the two selection deviations; ConsCfgTraceStrict.cfg: none, used for the  *)
 (* probe leg that documents the deviations on the real code).                                            *)
 EXTENDS Integers, Sequences, FiniteSets, TLC, Json, IOUtils, TraceLib
-CONSTANT TraceDevs
+CONSTANTS TraceDevs,     \* accepted deviations
+          KeepGoing      \* FALSE: stop at the first mismatch (legs G/T); TRUE: report every mismatch (probe leg)
 P == INSTANCE ConsCfg WITH Devs <- TraceDevs
 Trace == ndJsonDeserialize(IOEnv.TRACE)
 
@@ -12,7 +13,7 @@ VARIABLES l, fi, s, mismatch          \* fi: line of the setfont event whose fon
 vars == <<l, fi, s, mismatch>>
 
 Init == l = 1 /\ fi = 0 /\ s = P!S0 /\ mismatch = <<>>
-Next == /\ l <= Len(Trace) /\ mismatch = <<>>
+Next == /\ l <= Len(Trace) /\ (KeepGoing \/ mismatch = <<>>)
         /\ l' = l + 1
         /\ LET e == Trace[l]
                m == P!Mon(s, e, IF fi = 0 THEN <<>> ELSE Trace[fi].fd)
